@@ -279,6 +279,7 @@ class FakeUdpTransport(_FakeTransport, asyncio.DatagramTransport):
 
     def peer_error(self, exc):
         if self.alive():
+            self.world.peer_events.append((self._vloop.vtime, "error", self.tid))
             self._protocol.error_received(exc)
             return True
         return False
@@ -322,6 +323,7 @@ class FakeTcpTransport(_FakeTransport):
     def peer_eof(self):
         if not self.alive():
             return False
+        self.world.peer_events.append((self._vloop.vtime, "eof", self.tid))
         try:
             keep_open = self._protocol.eof_received()
         except (SystemExit, KeyboardInterrupt):
@@ -336,6 +338,7 @@ class FakeTcpTransport(_FakeTransport):
     def peer_reset(self, exc):
         if not self.alive():
             return False
+        self.world.peer_events.append((self._vloop.vtime, "reset", self.tid))
         self._fatal_error(exc, "Fatal read error on socket transport")
         return True
 
@@ -359,6 +362,7 @@ class World:
         self.open = set()
         self.max_open = 0
         self._buckets = {}
+        self.peer_events = []   # (time, error|eof|reset, tid): transport-killing events caused by the peer
 
     # -- transports ----------------------------------------------------------------------------
     def register(self, tr) -> int:
